@@ -63,10 +63,12 @@ def envs(G, rk: gkdi.RootKey, ch: gkdi.Chain, pos: t.Tuple[int, int], pubkey: t.
         kdf_parameters=gkdi.pack_kdf_params(rk.hash_name), secret_algorithm=rk.secret_alg, secret_parameters=rk.params(),
         private_key_length=rk.priv_len, public_key_length=rk.pub_len, domain_name="d", forest_name="f",
     )
-    seed_env = G.GroupKeyEnvelope(flags=2, l1_key=(ch.l1(l1 - 1) if l1 else b"") if l2 != 31 else ch.l1(l1), l2_key=ch.l2(l1, l2), **common)
+    # flag values: bit 0 = "L2 key field holds the group public key"; bit 1 is set by Windows in both forms (its public-key key
+    # identifiers carry 3, seed-key envelopes 2) and clear in other captures: both spellings of each form are used, by position
+    seed_env = G.GroupKeyEnvelope(flags=2 if (l1 + 2 * l2) % 3 else 0, l1_key=(ch.l1(l1 - 1) if l1 else b"") if l2 != 31 else ch.l1(l1), l2_key=ch.l2(l1, l2), **common)
     if pubkey is None:
         return seed_env, seed_env
-    return G.GroupKeyEnvelope(flags=1, l1_key=b"", l2_key=pubkey, **common), seed_env
+    return G.GroupKeyEnvelope(flags=3 if (l1 + l2) % 2 else 1, l1_key=b"", l2_key=pubkey, **common), seed_env
 
 
 def run_case(enc_env, dec_env, rnd: bytes):
@@ -248,7 +250,7 @@ def shard_xhash(G, alg: str, seed: int, acc) -> None:
                     gpub = gkdi.public_key(salg, params, x)
                     common = dict(version=1, l0=361, l1=3, l2=4, root_key_identifier=uuid_const, kdf_algorithm="SP800_108_CTR_HMAC", kdf_parameters=gkdi.pack_kdf_params(h), secret_algorithm=salg,
                                   secret_parameters=params, private_key_length=priv, public_key_length=pub, domain_name="", forest_name="")
-                    enc_env = G.GroupKeyEnvelope(flags=1, l1_key=b"", l2_key=gpub, **common)
+                    enc_env = G.GroupKeyEnvelope(flags=1 if (oi + s_i) % 2 else 3, l1_key=b"", l2_key=gpub, **common)
                     dec_env = G.GroupKeyEnvelope(flags=2, l1_key=b"", l2_key=l2seed, **common)
                     e = 3 + (fixed_e_raw if oi % 2 else int.from_bytes(d.bytes(plen), "big")) % (SMALL_P - 5 if alg == "DHsmall" else 2 ** (8 * plen - 2))
                     rnd = e.to_bytes(plen, "big")
